@@ -53,6 +53,8 @@ def scenario(draw) -> Dict[str, Any]:
         # B's cache holds the (expired, possibly unpurged) pointer of a candidate from 1128 s ago: a later conflicting PTR is then a
         # refresh of a cached record rather than a new record
         'pre': draw(st.sampled_from([None, None, 1, 1, 2])) if inj is not None and inj['off'] >= -1000 else None,
+        # the ServiceInfo object was registered and unregistered on this instance once before (only when B exists before the owner)
+        'prior': draw(st.sampled_from([False, False, True])),
     }
 
 
@@ -72,6 +74,7 @@ class Exec:
         self.result: Any = None
         self.exc: Optional[BaseException] = None
         self.second: Any = None
+        self.frozen = False
 
     async def main(self, w: sim.World) -> None:
         from zeroconf import RecordUpdateListener
@@ -85,7 +88,12 @@ class Exec:
 
             class Spy(RecordUpdateListener):
                 def async_update_records(self, zc_: Any, now: float, recs: List[Any]) -> None:
+                    if run.frozen:
+                        return          # the scenario is over (what the hosts say while they are torn down is not part of it)
                     for r in recs:
+                        if r.new.type == 12 and not r.new.ttl and r.new.name.lower() == TYPE:
+                            run.learn.pop(r.new.alias, None)           # a goodbye takes the pointer out of the cache
+                            run.expiry.pop(r.new.alias, None)
                         if r.new.type == 12 and r.new.ttl and r.new is not r.old and r.new.name.lower() == TYPE:
                             if run.expiry.get(r.new.alias, 0) <= now:
                                 run.learn.pop(r.new.alias, None)       # the earlier copy had expired: learned afresh
@@ -98,9 +106,22 @@ class Exec:
             hb.zc.async_add_listener(Spy(), None)
             return hb
 
+        prior_info = None
         if case['b_first']:
             b = mk_b()
             await b.zc.async_wait_for_start()
+            if case.get('prior'):
+                # the very ServiceInfo object of the registration under test has been registered and unregistered on this instance
+                # before, when nobody else used the name: whatever it memoised then must not leak into the second registration
+                prior_info = sim.make_service_info({'type': TYPE, 'name': cand(1), 'port': 7000, 'server': 'newcomer.local.',
+                                                    'addrs': case['addrs'], 'props': '0161', 'host_ttl': case['host_ttl'],
+                                                    'other_ttl': case['other_ttl']})
+                task = await b.azc.async_register_service(prior_info)
+                await task
+                await asyncio.sleep(1.5)
+                task = await b.azc.async_unregister_service(prior_info)
+                await task
+                await asyncio.sleep(2.0)
         if case['owner'] != 'none':
             a = w.add_host('A', socks=[('v4', '10.0.0.1')])
             await a.zc.async_wait_for_start()
@@ -126,7 +147,7 @@ class Exec:
         desc = {'type': TYPE, 'name': cand(1), 'port': 7000, 'server': 'newcomer.local.', 'addrs': case['addrs'], 'props': '0161',
                 'host_ttl': case['host_ttl'], 'other_ttl': case['other_ttl']}
         self.desc = desc
-        info = sim.make_service_info(desc)
+        info = prior_info if prior_info is not None else sim.make_service_info(desc)
         self.info = info
         T = w.now_ms
         self.T = T
@@ -170,6 +191,7 @@ class Exec:
                 self.second = ('exc', e)
         await asyncio.sleep(3.0)
         self.registry_names = [i.name for i in b.zc.registry.async_get_service_infos()]
+        self.frozen = True
 
 
 def check(case: Dict[str, Any]) -> Dict[str, Any]:
@@ -334,6 +356,8 @@ def check(case: Dict[str, Any]) -> Dict[str, Any]:
         classes.append('conflict-arrives-as-refresh-of-an-expired-cached-pointer')
     if case['twice'] is not None:
         classes.append('registered-twice')
+    if case['b_first'] and case.get('prior'):
+        classes.append('same-object-registered-before')
     if case['b_first']:
         classes.append('prepopulated-cache')
     return {'nontrivial': between or len(chain) >= 3, 'classes': classes, 'max': {'chain': len(chain)}, 'sample': {'case': case, 'outcome': det}}
